@@ -1154,6 +1154,8 @@ PINNED = [
     _P("find-repo", {"kind": "gen", "steps": [_pend(0), {"s": {"t": "int", "v": 0xB001}, "d": {"t": "none"}}], "end": "stop"}, 256),
     # Relevant Patient Information Query SCP must answer a Warning status (was: no response at all)
     _P("find-relpat", {"kind": "gen", "steps": [{"s": {"t": "int", "v": 0x0107}, "d": {"t": "none"}}], "end": "stop"}),
+    # Relevant Patient Information Query: the final Success must not carry the Pending response's Identifier / elements
+    _P("find-relpat", {"kind": "gen", "steps": [_pend(0, {"ErrorComment": "only for the match"})], "end": "stop"}, 10, "explicit"),
     # wrong-shaped handler results / status outside 0..65535: no final response (A-ABORT)
     _P("nget-printer", {"kind": "ret-raw", "raw": {"t": "int", "v": 0}}),
     _P("find-study", {"kind": "gen", "steps": [_pend(0), {"raw": {"t": "tuple1"}}], "end": "stop"}),
@@ -1515,7 +1517,7 @@ def model(case, quirks=frozenset()):
     n_sub = 0
     dest_dead = False
 
-    def computed_final(cls, explicit_success=False):
+    def computed_final(cls, explicit_success=False, extras=None):
         if fail == 0 and warn == 0:
             s = {0x0000}
         elif fail >= n:
@@ -1524,7 +1526,7 @@ def model(case, quirks=frozenset()):
                 s = {0xA702, 0xB000}
         else:
             s = {0xB000}
-        final(s, cls, counters=(None, comp, fail, warn), failed=list(failed), computed=True,
+        final(s, cls, extras, counters=(None, comp, fail, warn), failed=list(failed), computed=True,
               built_list=bool(fail or warn), data=None if not (fail or warn) else "faillist")
 
     for st_ in steps[pos:]:
@@ -1598,7 +1600,7 @@ def model(case, quirks=frozenset()):
                             counters=(rem, comp, fail, warn), failed=None))
             continue
         if code == 0x0000:
-            computed_final("explicit-success", explicit_success=True)
+            computed_final("explicit-success", explicit_success=True, extras=extras)
             return out
         # failure / warning / cancel / unknown status supplied by the handler: final with that status; its own
         # FailedSOPInstanceUIDList data set is promised to arrive only with a status documented for the service
